@@ -472,3 +472,37 @@ impl Row {
         (prev_pos, prev_attrs)
     }
 }
+
+#[cfg(vt100_verif)]
+impl Row {
+    pub(crate) fn verif_dump(&self, out: &mut String) {
+        use std::fmt::Write as _;
+        out.push_str(if self.wrapped { " w1" } else { " w0" });
+        let mut prev: Option<String> = None;
+        let mut count = 0usize;
+        let flush = |out: &mut String, tok: &str, count: usize| {
+            if count == 1 {
+                let _ = write!(out, " {tok}");
+            } else if count > 1 {
+                let _ = write!(out, " {tok}*{count}");
+            }
+        };
+        for cell in &self.cells {
+            let mut tok = String::new();
+            cell.verif_dump(&mut tok);
+            if prev.as_deref() == Some(tok.as_str()) {
+                count += 1;
+            } else {
+                if let Some(p) = &prev {
+                    flush(out, p, count);
+                }
+                prev = Some(tok);
+                count = 1;
+            }
+        }
+        if let Some(p) = &prev {
+            flush(out, p, count);
+        }
+        out.push_str(" ;");
+    }
+}
